@@ -42,4 +42,7 @@ EXTRAS = [
     lambda rep, fb, tier: __import__("vf.rules.binding2", fromlist=["x"]).rule_binding_call_roles(rep, fb),
     lambda rep, fb, tier: __import__("vf.rules.lints3", fromlist=["x"]).rule_regular_zeros_length(rep, fb),
     lambda rep, fb, tier: __import__("vf.rules.pyrules5", fromlist=["x"]).rule_py_slice_consumed(rep),
+    lambda rep, fb, tier: __import__("vf.rules.lints3", fromlist=["x"]).rule_strides_inner_first(rep, fb),
+    lambda rep, fb, tier: __import__("vf.rules.lints3", fromlist=["x"]).rule_range_same_base(rep, fb),
+    lambda rep, fb, tier: __import__("vf.rules.lints3", fromlist=["x"]).rule_identities_offset_units(rep, fb),
 ]
